@@ -289,6 +289,58 @@ def effect (v : Version) (site : Site) (s : St) (e : Err) : St × Ret :=
   | .closeRaise => ({ s with sockOpen := false }, .raised)
   | .raise => (s, .raised)
 
+/-! ### the datagram stack's transmit service entry points
+
+`GramStack.serviceTxPkts` / `serviceTxPktsOnce`, and `Stack.serviceAllTx` / `serviceAllTxOnce` / `serviceAll`
+which reach them (`.txMsgs` empty, nothing to receive).  A packet is (id, destination); the script holds
+the answer of each `sendto` call (`none` = sent). -/
+
+abbrev Pkt := Nat × Nat
+
+inductive GramEntry | txPkts | txPktsOnce | allTx | allTxOnce | all
+  deriving DecidableEq, Repr
+
+inductive GramRes
+  | ok (sent queue : List Pkt)
+  | raised (sent queue : List Pkt)
+  deriving DecidableEq, Repr
+
+/-- `_serviceOneTxPkt` for the popped packet `p`: `Sum.inl` = went on (new sent, laters, blockeds, script),
+`Sum.inr` = the error was re-raised -/
+def gramOne (v : Version) (p : Pkt) (script : List (Option Err)) (sent laters : List Pkt) (bl : List Nat) :
+    Option (List Pkt × List Pkt × List Nat × List (Option Err)) :=
+  if bl.contains p.2 then some (sent, laters ++ [p], bl, script)        -- `laters.append((pkt, ha)); return False`
+  else match script.headD none with
+    | none => some (sent ++ [p], laters, bl, script.tail)               -- `handler.send` returned
+    | some e =>
+      match classify v .gramSend e with
+      | .retry => some (sent, laters ++ [p], bl ++ [p.2], script.tail)  -- `laters.append(...); blockeds.append(ha)`
+      | _ => none                                                       -- `raise`
+
+/-- `while self.txPkts: self._serviceOneTxPkt(laters, blockeds)` then `while laters: self.txPkts.append(...)`;
+an exception leaves the loop with the popped packet and the local `laters` gone -/
+def gramLoop (v : Version) : List Pkt → List (Option Err) → List Pkt → List Pkt → List Nat → GramRes
+  | [], _, sent, laters, _ => .ok sent laters
+  | p :: rest, script, sent, laters, bl =>
+    match gramOne v p script sent laters bl with
+    | some (sent', laters', bl', script') => gramLoop v rest script' sent' laters' bl'
+    | none => .raised sent rest
+
+/-- `serviceTxPktsOnce`: `if self.txPkts: self._serviceOneTxPkt(laters, [])` then put `laters` back -/
+def gramOnce (v : Version) (q : List Pkt) (script : List (Option Err)) : GramRes :=
+  match q with
+  | [] => .ok [] []
+  | p :: rest =>
+    match gramOne v p script [] [] [] with
+    | some (sent', laters', _, _) => .ok sent' (rest ++ laters')
+    | none => .raised [] rest
+
+/-- every transmit entry point of the stack, on a queue `q` of packed packets -/
+def gramService (v : Version) (entry : GramEntry) (q : List Pkt) (script : List (Option Err)) : GramRes :=
+  match entry with
+  | .txPkts | .allTx | .all => gramLoop v q script [] [] []
+  | .txPktsOnce | .allTxOnce => gramOnce v q script
+
 /-! ### `Client.accept`: `connect_ex` returns a code instead of raising -/
 
 inductive Connect
